@@ -701,6 +701,12 @@ class SsbGraphMinimizer:
                 ):
                     in_edges = v.in_edges()
                     out_edges = v.out_edges()
+                    if len(in_edges) == 0 and v.index == 0:
+                        # The jump is the entry point of the routine (eg. a loop that jumps to its condition first):
+                        # it has no in edges, but it is not unreachable. Keep it and make sure its target is printed.
+                        if len(out_edges) == 1 and isinstance(out_edges[0].target_vertex["op"], SsbLabel):
+                            out_edges[0].target_vertex["op"].force_write = True
+                        continue
                     if len(in_edges) != 0:
                         assert len(in_edges) == 1 and len(out_edges) == 1
                         v_before = in_edges[0].source_vertex
